@@ -17,6 +17,7 @@ type e1cfg struct {
 	roots    []*ssa.Function
 	pkgs     map[string]bool     // module-relative packages whose sites are reported
 	maxDepth int                 // interprocedural caller-context depth
+	traverse map[string]bool     // packages whose functions are followed by reachability (nil: all of the module)
 	exc      map[string]excEntry // per-construct exceptions, keyed by obligation key (without rule prefix)
 	excP5    map[string]excEntry
 }
@@ -76,7 +77,11 @@ func (c *Ctx) buildCallIndex() *callIndex {
 
 // reachable computes the in-module functions reachable from roots. Static calls, closures
 // created in reachable functions, and interface invokes resolved by CHA to in-module methods.
-func (c *Ctx) reachable(roots []*ssa.Function) map[*ssa.Function]bool {
+func (c *Ctx) reachable(roots []*ssa.Function, traverse ...map[string]bool) map[*ssa.Function]bool {
+	var trav map[string]bool
+	if len(traverse) > 0 {
+		trav = traverse[0]
+	}
 	cg := c.CG()
 	seen := map[*ssa.Function]bool{}
 	var work []*ssa.Function
@@ -89,6 +94,9 @@ func (c *Ctx) reachable(roots []*ssa.Function) map[*ssa.Function]bool {
 		}
 		rel := pkgRel(f)
 		if strings.HasPrefix(rel, "examples") || strings.HasPrefix(rel, "experiments") || strings.HasPrefix(rel, "cmd") {
+			return
+		}
+		if trav != nil && !trav[rel] {
 			return
 		}
 		seen[f] = true
@@ -134,7 +142,8 @@ type siteGoal struct {
 }
 
 func (c *Ctx) panicFree(cfg e1cfg) {
-	reach := c.reachable(cfg.roots)
+	debugReach(c, cfg.roots)
+	reach := c.reachable(cfg.roots, cfg.traverse)
 	funcs := canonical(reach)
 	ci := c.buildCallIndex()
 	nIn := 0
@@ -325,6 +334,25 @@ func (c *Ctx) panicSites(f *ssa.Function, cfg e1cfg, ci *callIndex, reach map[*s
 				}
 			case *ssa.Call:
 				c.libPrecond(f, b, x, env)
+				if callQName(&x.Call) == "reflect.MakeSlice" && len(x.Call.Args) == 3 {
+					key := siteKey(f, "P4", x) + " reflect.MakeSlice"
+					ln, cp := x.Call.Args[1], x.Call.Args[2]
+					g := siteGoal{desc: "reflect.MakeSlice size bounded", build: func(p *proverCtx) []*linexp {
+						var goals []*linexp
+						for _, v := range []ssa.Value{ln, cp} {
+							if _, ok := constInt(v); ok {
+								continue
+							}
+							e := p.lin(v)
+							goals = append(goals, e)
+							if !onlyLenVars(e) {
+								goals = append(goals, e.scale(-1).addConst(allocLimit))
+							}
+						}
+						return goals
+					}}
+					c.siteObl("E1.P4-alloc", key, x.Pos(), f, b, g, env, "reflect.MakeSlice size bounded", "reflect.MakeSlice sized by a value not bounded by a constant or by the input length: "+instrText(x))
+				}
 			}
 		}
 	}
@@ -423,6 +451,11 @@ func rejects(f *ssa.Function, b *ssa.BasicBlock) bool {
 // internal function it is split into one obligation per calling context.
 func (c *Ctx) siteObl(rule, key string, pos token.Pos, f *ssa.Function, b *ssa.BasicBlock, g siteGoal, env *e1env, okMsg, badMsg string) {
 	p := c.newProver(f, b)
+	if !proveAll(p, g) && c.phiSplit(f, b, g) {
+		c.ok(rule, key, pos, okMsg+" (case split over the incoming edges of a phi)")
+		return
+	}
+	p = c.newProver(f, b)
 	c.oblWith(rule, key, pos, p, f, b, f, g, env, okMsg, badMsg, 0)
 }
 
@@ -463,45 +496,83 @@ func (c *Ctx) oblWith(rule, key string, pos token.Pos, p *proverCtx, f *ssa.Func
 	}
 	for _, s := range relevant {
 		caller := s.Parent()
-		q := &proverCtx{c: c, f: p.f, block: p.block, seenVar: map[lvar]bool{}, stable: map[stableKey]bool{}, siteBlock: map[*ssa.Function]*ssa.BasicBlock{}}
-		for k, v := range p.siteBlock {
-			q.siteBlock[k] = v
-		}
-		q.siteBlock[caller] = s.Block()
-		q.facts = append(q.facts, p.facts...)
-		for k, v := range p.seenVar {
-			q.seenVar[k] = v
-		}
-		for _, ft := range factsAt(caller, s.Block()) {
-			q.condFacts(ft.Cond, ft.Truth, "caller branch "+c.rel(condPosOf(ft)))
-		}
-		args := s.Common().Args
-		params := frontier.Params
-		if len(args) == len(params) {
-			for i, prm := range params {
-				a := args[i]
-				switch {
-				case isInteger(prm.Type()):
-					pl, al := q.lin(prm), q.lin(a)
-					q.addFact(pl.sub(al), "param=arg")
-					q.addFact(al.sub(pl), "param=arg")
-				case isSliceLike(prm.Type()):
-					pl := q.varFor(lvar{v: prm, kind: 'l'})
-					al := q.varFor(lvar{v: a, kind: 'l'})
-					q.addFact(pl.sub(al), "len(param)=len(arg)")
-					q.addFact(al.sub(pl), "len(param)=len(arg)")
-					if _, isSl := prm.Type().Underlying().(*types.Slice); isSl {
-						pc := q.varFor(lvar{v: prm, kind: 'c'})
-						ac := q.varFor(lvar{v: a, kind: 'c'})
-						q.addFact(pc.sub(ac), "cap(param)=cap(arg)")
-						q.addFact(ac.sub(pc), "cap(param)=cap(arg)")
+		mkJoint := func(subst map[ssa.Value]ssa.Value, extra *ssa.BasicBlock, edgeTo *ssa.BasicBlock) *proverCtx {
+			q := &proverCtx{c: c, f: p.f, block: p.block, seenVar: map[lvar]bool{}, stable: map[stableKey]bool{}, siteBlock: map[*ssa.Function]*ssa.BasicBlock{}, subst: subst}
+			for k, v := range p.siteBlock {
+				q.siteBlock[k] = v
+			}
+			q.siteBlock[caller] = s.Block()
+			q.facts = append(q.facts, p.facts...)
+			for k, v := range p.seenVar {
+				q.seenVar[k] = v
+			}
+			for _, ft := range factsAt(caller, s.Block()) {
+				q.condFacts(ft.Cond, ft.Truth, "caller branch "+c.rel(condPosOf(ft)))
+			}
+			if extra != nil {
+				for _, ft := range factsAt(caller, extra) {
+					q.condFacts(ft.Cond, ft.Truth, "caller branch (phi edge) "+c.rel(condPosOf(ft)))
+				}
+				if ifi := lastIf(extra); ifi != nil && extra.Succs[0] != extra.Succs[1] {
+					q.condFacts(ifi.Cond, extra.Succs[0] == edgeTo, "edge into phi")
+				}
+			}
+			args := s.Common().Args
+			params := frontier.Params
+			if len(args) == len(params) {
+				for i, prm := range params {
+					a := args[i]
+					switch {
+					case isInteger(prm.Type()):
+						pl, al := q.lin(prm), q.lin(a)
+						q.addFact(pl.sub(al), "param=arg")
+						q.addFact(al.sub(pl), "param=arg")
+					case isSliceLike(prm.Type()):
+						pl := q.varFor(lvar{v: prm, kind: 'l'})
+						al := q.varFor(lvar{v: a, kind: 'l'})
+						q.addFact(pl.sub(al), "len(param)=len(arg)")
+						q.addFact(al.sub(pl), "len(param)=len(arg)")
+						if _, isSl := prm.Type().Underlying().(*types.Slice); isSl {
+							pc := q.varFor(lvar{v: prm, kind: 'c'})
+							ac := q.varFor(lvar{v: a, kind: 'c'})
+							q.addFact(pc.sub(ac), "cap(param)=cap(arg)")
+							q.addFact(ac.sub(pc), "cap(param)=cap(arg)")
+						}
 					}
 				}
 			}
+			return q
 		}
+		q := mkJoint(nil, nil, nil)
 		subKey := key + " @ " + fnName(caller) + " " + normInstr(s.(ssa.Instruction))
 		if v := s.Value(); v != nil {
 			subKey = key + " @ " + fnName(caller) + " call(" + argShapes(s.Common()) + ")"
+		}
+		// case split over a phi argument of the call (e.g. a key obtained on one of two paths)
+		if !proveAll(q, g) {
+			split := false
+			for _, a := range s.Common().Args {
+				ph, ok := a.(*ssa.Phi)
+				if !ok || !ph.Block().Dominates(s.Block()) {
+					continue
+				}
+				all := true
+				for i, ev := range ph.Edges {
+					qi := mkJoint(map[ssa.Value]ssa.Value{ph: ev}, ph.Block().Preds[i], ph.Block())
+					if !proveAll(qi, g) {
+						all = false
+						break
+					}
+				}
+				if all {
+					split = true
+					break
+				}
+			}
+			if split {
+				c.ok(rule, subKey, s.Pos(), okMsg+" (calling context, case split over the incoming edges of a phi argument)")
+				continue
+			}
 		}
 		c.oblWith(rule, subKey, s.Pos(), q, f, b, caller, g, env, okMsg, badMsg+" [called from "+fnName(caller)+" at "+c.rel(s.Pos())+"]", depth+1)
 	}
@@ -600,7 +671,7 @@ func (c *Ctx) makeSite(f *ssa.Function, b *ssa.BasicBlock, x *ssa.MakeSlice, env
 			bounded := false
 			var lens []lvar
 			for lv := range p.seenVar {
-				if lv.kind == 'l' {
+				if lv.kind == 'l' || lv.kind == 'L' {
 					lens = append(lens, lv)
 				}
 			}
@@ -623,7 +694,7 @@ func (c *Ctx) makeSite(f *ssa.Function, b *ssa.BasicBlock, x *ssa.MakeSlice, env
 // onlyLenVars: expression is a small non-negative combination of len()/cap() of existing objects plus a constant.
 func onlyLenVars(e *linexp) bool {
 	for v, co := range e.co {
-		if v.kind != 'l' && v.kind != 'c' {
+		if v.kind != 'l' && v.kind != 'c' && v.kind != 'L' && v.kind != 'C' {
 			return false
 		}
 		if co.Sign() < 0 {
@@ -655,6 +726,11 @@ func (c *Ctx) libPrecond(f *ssa.Function, b *ssa.BasicBlock, x *ssa.Call, env *e
 		need, exact = 64, true
 	case "crypto/ed25519.NewKeyFromSeed":
 		need, exact = 32, true
+	case "strings.Repeat", "bytes.Repeat":
+		key := siteKey(f, "P7", x) + " count>=0"
+		g := siteGoal{desc: "Repeat count >= 0", build: func(p *proverCtx) []*linexp { return []*linexp{p.lin(x.Call.Args[1])} }}
+		c.siteObl("E1.P7-libpre", key, x.Pos(), f, b, g, env, "Repeat count proved non-negative", "strings.Repeat panics on a negative count; not proved at this call")
+		return
 	default:
 		return
 	}
